@@ -4,11 +4,16 @@ use super::rc::{RcRefCell, RcRefCellT};
 
 pub struct StringBuffer {
     s: String,
+    // The bytes of a character whose remaining bytes have not been written yet.
+    pending: Vec<u8>,
 }
 
 impl StringBuffer {
     pub fn new() -> StringBuffer {
-        StringBuffer { s: String::new() }
+        StringBuffer {
+            s: String::new(),
+            pending: Vec::new(),
+        }
     }
 
     pub fn as_str(&self) -> &str {
@@ -23,15 +28,30 @@ impl StringBuffer {
 
     pub fn clear(&mut self) {
         self.s = String::new();
+        self.pending.clear();
     }
 }
 
 // String only implements fmt::Write
 impl io::Write for StringBuffer {
     fn write(&mut self, buf: &[u8]) -> io::Result<usize> {
-        let str_rep = std::str::from_utf8(buf)
-            .map_err(|e| io::Error::new(io::ErrorKind::InvalidData, e))?;
-        let res = self.s.write_str(str_rep);
+        // A writer in front of us (eg. the csv writer's 8 KiB buffer) may cut
+        // the text anywhere, also in the middle of a multi-byte character. Keep
+        // such an incomplete tail until its remaining bytes arrive.
+        let n_pending_before = self.pending.len();
+        self.pending.extend_from_slice(buf);
+        let n_valid = match std::str::from_utf8(&self.pending) {
+            Ok(_) => self.pending.len(),
+            Err(e) if e.error_len().is_none() => e.valid_up_to(),
+            Err(e) => {
+                self.pending.truncate(n_pending_before);
+                return Err(io::Error::new(io::ErrorKind::InvalidData, e));
+            }
+        };
+        let res = self
+            .s
+            .write_str(std::str::from_utf8(&self.pending[..n_valid]).unwrap());
+        self.pending.drain(..n_valid);
         match res {
             Ok(_) => Ok(buf.len()),
             Err(e) => Err(io::Error::new(io::ErrorKind::Other, e)),
